@@ -349,7 +349,7 @@ class Independence(Contract):
 
     def configs(self, tier):
         for fmt in self.FMTS:
-            for route in ('deepcopy', 'ctor_like', 'ctor_template', 'ctor_config', 'ctor_from_fxp', 'fxp_like_fn'):
+            for route in ('deepcopy', 'ctor_like', 'ctor_template', 'ctor_config', 'ctor_from_fxp', 'fxp_like_fn', 'unrelated'):
                 for shape in ([], [2]):
                     yield dict(route=route, shape=shape, fmt=list(fmt))
 
@@ -367,7 +367,12 @@ class Independence(Contract):
                                                                      'array_op_out_like': arr_tmpl}, vdtype=float)
         r = cfg['route']
         v0 = list(elems(src.val))
-        if r == 'deepcopy':
+        if r == 'unrelated':
+            # two objects built independently by plain constructor calls share nothing either (no class-level / default-argument state)
+            src = P.Fxp(inp['v'], s, n, f, rounding='around', overflow='wrap')
+            v0 = list(elems(src.val))
+            z = P.Fxp(inp['v'], s, n, f)
+        elif r == 'deepcopy':
             z = src.deepcopy()
         elif r == 'ctor_like':
             z = P.Fxp(inp['v'], like=src)
@@ -416,7 +421,7 @@ class IndependenceWide(Independence):
 
     def configs(self, tier):
         for c in Independence.configs(self, tier):
-            if c['route'] != 'ctor_from_fxp':       # Fxp(wide_fxp) with symbolic codes: the solver does not come back (size inference over 70-bit terms)
+            if c['route'] not in ('ctor_from_fxp', 'unrelated'):       # Fxp(wide_fxp) with symbolic codes: the solver does not come back (size inference over 70-bit terms)
                 yield c
 
 
